@@ -709,12 +709,16 @@ def thread_check(prop, tier, seed, scenarios, rule, sample):
             def one(j):
                 name, ths, sc, yl, conf, np_ = j
                 d = rd.sub()
-                rc, out = T.run_script(d, ths, sc, yl, init=3, num_pages=np_)
-                r = T.parse_output(out)
-                bad = T.oracle(ths, 3, r, rc)
-                mism, ns = ([], 0)
-                if conf and not r["stuck"]:
-                    mism, ns = T.conformance(d, out, ths, yl, bool(atomic))
+                # "blocked" is judged by a timeout: a problem must persist with a 6x longer timeout before it counts
+                for tmo in (100, 600):
+                    rc, out = T.run_script(d, ths, sc, yl, init=3, num_pages=np_, timeout_ms=tmo)
+                    r = T.parse_output(out)
+                    bad = T.oracle(ths, 3, r, rc)
+                    mism, ns = ([], 0)
+                    if conf and not r["stuck"]:
+                        mism, ns = T.conformance(d, out, ths, yl, bool(atomic))
+                    if not bad and not mism:
+                        break
                 shutil.rmtree(d, ignore_errors=True)
                 return j, out, bad, mism, ns
 
@@ -983,9 +987,82 @@ def check_c13(tier, seed):
         rd.cleanup()
 
 
+# ----------------------------------------------------------------------------------------------
+# C10: freed space is reused
+# ----------------------------------------------------------------------------------------------
+C10_META = {}
+
+
+def c10_oracle(label, text, r):
+    import re
+    pl_oracle("C10")(label, text, r)
+    meta = C10_META.get(label)
+    if meta is None:
+        return
+    series = []
+    for (i, m) in r.get("snap_meta", []):
+        mm = re.search(r"np=(\d+)", m)
+        if mm:
+            series.append(int(mm.group(1)))
+    COUNTERS.setdefault("C10", {}).setdefault("high_water_series", {})[label] = series[::max(1, len(series) // 30)]
+    n = meta["ntx"]
+    if len(series) < n:
+        return                          # the run itself failed: already reported
+    pin = meta["pin"]
+    hw = series
+    bad = None
+    warm = 40
+    if pin:
+        a, b_ = pin
+        settle = b_ + 12
+        if hw[a] > hw[warm] * 1.15 + 4 and meta["workload"] in ("fixed1", "fixedN", "bdel"):
+            bad = "file grew from %d to %d pages between commits %d and %d although live data is constant and no reader was open" % (hw[warm], hw[a], warm, a)
+        elif hw[-1] > hw[settle] * 1.05 + 4 and meta["workload"] in ("fixed1", "fixedN", "bdel"):
+            bad = "file keeps growing after the pinned reader closed: %d pages at commit %d, %d at the end" % (hw[settle], settle, hw[-1])
+        elif hw[b_ - 1] <= hw[a] and meta["workload"] == "fixedN":
+            pass                        # (a pinned reader usually forces growth; not required)
+    else:
+        if hw[-1] > hw[warm] * 1.15 + 4 and meta["workload"] in ("fixed1", "fixedN", "bdel"):
+            bad = "file grew from %d to %d pages after warm-up although live data is constant" % (hw[warm], hw[-1])
+    if not bad and meta["workload"] == "var":
+        third = hw[2 * n // 3]
+        if hw[-1] > third * 1.25 + 8:
+            bad = "variable-size workload: file still growing in the last third (%d -> %d pages)" % (third, hw[-1])
+        if hw[-1] > 40 * 6 + 60:
+            bad = "variable-size workload: %d pages for at most 40 keys of <= 3000 bytes" % hw[-1]
+    if bad:
+        r["checks_bad"].append((len(r["cmds"]) - 1, "high-water mark series (decoded from every committed header)", "plateau", bad))
+
+
+def cases_c10(tier, seed):
+    q = tier == "quick"
+    n = 300 if q else 1500
+    cases = []
+    k = 0
+    for wl in ("fixed1", "fixedN", "var", "bdel"):
+        for (pin, reopen) in (((100, 150), 0), (None, 25), ((100, 150), 40)) if q else (((100, 150), 0), (None, 25), ((100, 150), 40), (None, 0), ((300, 900), 100)):
+            label = "g10 %s ntx=%d pin=%s reopen=%d seed=%d" % (wl, n, pin, reopen, seed * 10 + k)
+            C10_META[label] = dict(workload=wl, ntx=n, pin=pin)
+            cases.append((label, gen.g10(seed * 10 + k, wl, ntx=n, pin=pin, reopen_every=reopen)))
+            k += 1
+    return cases
+
+
+def check_c10(tier, seed):
+    return history_property(
+        "C10", tier, seed, cases_c10(tier, seed), dict(pagesize=1024, num_pages=3000),
+        "long runs (quick 300, thorough 1500 transactions) over 40 keys: fixed-size single-page overwrites, fixed-size multi-page values, "
+        "variable sizes with deletes, nested bucket create/fill/delete; with a reader pinned for 50 commits, with reopen every 25/40 commits; "
+        "the high-water mark is read from EVERY committed header by the Gallina decoder: no growth between warm-up and the pin, growth only "
+        "while pinned (+ settling), none afterwards, up to 15% / 5% + 4 pages of fragmentation slack (fixed-size workloads); bounded and flat in the last third (variable-size); every commit's "
+        "hook events replayed in the free-list model (allocate / free / release / publish exact) and accepted by the page-lifecycle machine; "
+        "non-trivial = every run",
+        on_result=c10_oracle, release_sample=0, profiles=("release",))
+
+
 CHECKS = {"C01": check_c01, "C02": check_c02, "C03": check_c03, "C04": check_c04, "C05": check_c05, "C06": check_c06,
-          "C07": check_c07, "C08": check_c08, "C09": check_c09, "C11": check_c11, "C12": check_c12, "C13": check_c13,
-          "C16": check_c16}
+          "C07": check_c07, "C08": check_c08, "C09": check_c09, "C10": check_c10, "C11": check_c11, "C12": check_c12,
+          "C13": check_c13, "C16": check_c16}
 
 
 def main(argv):
